@@ -16,6 +16,14 @@ def op? (s : String) : Option Op :=
   | ["m", c, i, v] => do some (.mutate (← c.toNat?) (← i.toNat?) (← v.toNat?))
   | _ => none
 
+def xop? (s : String) : Option XOp :=
+  match s.splitOn ":" with
+  | ["x", k, qid, vs, fl] => do
+    let fl ← if fl == "-" then some none else (fl.toNat?).map some
+    some (.miss (← k.toNat?) (← qid.toNat?) (← nats? vs) fl)
+  | ["o", c] => do some (.look (← c.toNat?))
+  | _ => (op? s).map .base
+
 def showOut (o : Out) : String :=
   match o.served with
   | none => "-"
@@ -24,12 +32,18 @@ def showOut (o : Out) : String :=
 /-- which kind of copy each site makes is read from the source -/
 def cfg : Cfg :=
   ⟨Gen.Facts.c10StoreCopies == some true && Gen.Facts.c10CopyNoOptDeep == some true,
-   Gen.Facts.c10HitCopies == some true, Gen.Facts.c10LazyHitCopies == some true⟩
+   Gen.Facts.c10HitCopies == some true, Gen.Facts.c10LazyHitCopies == some true,
+   Gen.Facts.c10MissPrivate == some true⟩
+
+def showXOut (o : XOut) : String :=
+  match o.seen with
+  | some vals => s!"vals={".".intercalate (vals.map toString)}"
+  | none => showOut o.out
 
 def handle : List String → String
   | ["iso", ops] =>
-    match (ops.splitOn ",").mapM op? with
-    | some ops => ";".intercalate ((({} : St).run cfg ops).2.map showOut)
+    match (ops.splitOn ",").mapM xop? with
+    | some ops => ";".intercalate ((({} : St).xrun cfg ops).2.map showXOut)
     | none => "bad-op"
   | _ => "bad-op"
 
